@@ -343,7 +343,31 @@ def rule_firstn(ctx):
     yield from c04.rule_firstn(ctx, R="C02.FIRSTN")
 
 
+def rule_trimform(ctx):
+    """Shared with C04.TRIMFORM: a two-segment annotation scored against itself with trim=True keeps its one
+    inner boundary."""
+    from . import c04
+
+    yield from c04.rule_trimform(ctx, R="C02.TRIMFORM")
+
+
+def rule_hitwindow(ctx):
+    """Shared with C05.WINDOWSIDES/INDEXSPACE and C08: the window search sorts the reference first, so a frame or event
+    list given in any order matches its own copy completely."""
+    from . import c05, c08
+
+    for o in c05.rule_windowsides(ctx):
+        o.rule = "C02.HITWINDOW"
+        yield o
+    for o in c08.rule_orderins(ctx):
+        if o.construct.startswith("util._fast_hit_windows"):
+            o.rule = "C02.HITWINDOW"
+            yield o
+
+
 RULES = [
+    ("C02.TRIMFORM", 8, rule_trimform),
+    ("C02.HITWINDOW", 4, rule_hitwindow),
     ("C02.FIRSTN", 4, rule_firstn),
     ("C02.FFORM", 2, rule_fform),
     ("C02.CHROMAFOLD", 3, rule_chromafold),
